@@ -44,9 +44,9 @@ def plans(pid, tier):
     th = tier == "thorough"
     P = []
     if pid == "C01":
-        P.append(dict(tag="fat", groups=G7, shapes="{Square, Quad, Circle, Trimer(5, 15), Trimer(2, 5)}",
-                      ax=[16, 20, 28, 40] + ([24, 34] if th else []),
-                      b=[(0, 14), (0, 20), (0, 28), (9, 12), (12, 16), (6, 8)] + ([(0, 10), (15, 20), (5, 12)] if th else []),
+        P.append(dict(tag="fat", groups=G7, shapes="{Square, Quad, Kite2, Circle, Trimer(5, 15), Trimer(2, 5)}",
+                      ax=[16, 20, 28] + ([24, 34, 40] if th else []),
+                      b=[(0, 14), (0, 20), (9, 12), (12, 16), (6, 8)] + ([(0, 10), (0, 28), (15, 20), (5, 12)] if th else []),
                       site=[-4, -1, 2] + ([-3, 0, 1, 3, 4] if th else []), orient=[1, 5] + ([2, 6, 13] if th else []),
                       invs=["ModelOK", "Emit"]))
         # thin molecules in thin sheared cells: the region in which a fixed shell count fails
@@ -56,7 +56,7 @@ def plans(pid, tier):
                       site=[0] + ([-4, 3] if th else []), orient=[1, 2, 5] + ([6, 13] if th else []),
                       invs=["ModelOK", "Emit"] + (["LemmasOK"] if th else [])))
     elif pid == "C02":
-        P.append(dict(tag="score", groups=G7, shapes="{Square, Kite, Circle, Trimer(5, 15), Trimer(10, 20)}",
+        P.append(dict(tag="score", groups=G7, shapes="{Square, Kite, Quad, Circle, Trimer(5, 15), Trimer(10, 20)}",
                       ax=[20, 28, 40, 64] + ([32, 48] if th else []),
                       b=[(0, 20), (0, 28), (0, 40), (12, 16), (15, 20), (24, 32)] + ([(0, 64), (9, 12), (21, 28)] if th else []),
                       site=[-4, -2, 1] + ([0, 3] if th else []), orient=[1, 5] + ([14] if th else []),
@@ -565,8 +565,8 @@ def lj_check(ctx):
         qs += [(a, b) for a in range(1, 13) for b in range(1, 13) if (a, b) not in qs]
     cuts = [(0, 1), (1, 8), (1, 20), (1, 2), (3, 4), (1, 64), (1, 1)]
     if th:
-        cuts += [(1, 3), (9, 16), (2, 1), (1, 100), (1, 1838)]
-    defs = {"GEps": vp.tla_set([(1, 2), (1, 1), (2, 1)] + ([(3, 10), (7, 2)] if th else [])),
+        cuts += [(1, 3), (9, 16), (2, 1), (1, 30)]
+    defs = {"GEps": vp.tla_set([(1, 2), (1, 1), (2, 1)] + ([(3, 2)] if th else [])),
             "GQ": vp.tla_set(qs), "GCut": vp.tla_set(cuts)}
     cfg = "SPECIFICATION Spec\nCONSTANTS\n  EpsSet <- GEps\n  QSet <- GQ\n  CutSet <- GCut\nINVARIANTS ModelOK Emit\nCHECK_DEADLOCK FALSE\n"
     r = vp.run_tlc("GenLJ", cfg, "C13_pair", workers=4, timeout=1200, root_text=vp.gen_module("GenLJ", "MC_LJ", defs))
@@ -697,10 +697,10 @@ def output_check(ctx):
                 print("VIOLATION property=%s replay=%s" % (pid, ctx["replay"]))
                 return 1
         return 0
-    r = crystal_run("C11_svg", G7, "{Square, Kite, Circle, Trimer(5, 15)}",
+    r = crystal_run("C11_svg", G7, "{Square, Quad, Circle, Trimer(5, 15)}",
                     ax=[28, 44] + ([20] if th else []),
                     b=[(0, 28), (0, 14), (9, 12), (12, 16)] + ([(15, 20)] if th else []),
-                    site=[-4, -3, 0, 2] + ([-1, 3] if th else []), orient=[1, 2, 5, 7, 11, 14] + ([3, 9, 16] if th else []),
+                    site=[-4, -3, 0, 2, 4] + ([-1, 3] if th else []), orient=[1, 2, 5, 11, 14] + ([3, 7, 9, 16] if th else []),
                     invs=["ModelOK", "EmitSvg"])
     if r.get("error") or r["violations"]:
         vp.log("TOOL-ERROR: TLC on Crystal (svg): %s %s" % (r.get("error"), r["violations"]))
